@@ -108,6 +108,37 @@ def p_rawhtml(rng):
     return '<pre>\n%s\n</pre>' % t
 
 
+CONTAINERS = [('dl', 'dd'), ('dl', 'dd'), ('ul', 'li'), ('ol', 'li'), ('div', 'div'), ('blockquote', 'div'), ('section', 'article'), ('dl', 'dt'), ('details', 'summary'),
+              ('table', 'td'), ('ul', 'p'), ('div', 'li')]
+
+
+def _indented(rng):
+    return rng.choice(['    ', '    ', '        ', '\t', '     ']) + rng.choice(['indented ', 'code ', '- item ', '1. n ', ': d ']) + words(rng, 1, 2)
+
+
+def p_mdhtml_container(rng):
+    """raw-HTML containers whose content is parsed as Markdown (md_in_html) - the container elements (dl/dd, ul/li, ...) are the
+    ones the list / indent / definition-list processors look at - followed by an indented or lazy block"""
+    outer, inner = rng.choice(CONTAINERS)
+    m = lambda: rng.choice([' markdown="1"', ' markdown="1"', ' markdown="block"', '', ' markdown="span"', ' class="k" markdown="1"'])
+    body = rng.choice([p_para, p_list, lambda r: words(r, 1, 3), lambda r: 'Term\n:   def ' + words(r)])(rng)
+    inside = body + rng.choice(['', '', '\n\n' + _indented(rng), '\n\n- li\n\n' + _indented(rng), '\n' + _indented(rng)])
+    head = '<dt>Term %s</dt>\n' % words(rng, 1, 1) if (outer, inner) == ('dl', 'dd') and rng.random() < 0.8 else ''
+    s = '<%s%s>\n%s<%s%s>\n%s\n</%s>\n</%s>' % (outer, m(), head, inner, m(), inside, inner, outer)
+    s += rng.choice(['', '\n\n' + _indented(rng), '\n\n' + _indented(rng) + '\n\n' + _indented(rng), '\n\n  lazy after ' + inline(rng), '\n\n- list after\n\n' + _indented(rng)])
+    return s
+
+
+def p_then_indent(rng):
+    """a block construct followed by indented block(s): whether those continue the construct or are code depends on the
+    list / indent processors and on what they consider a list or an item"""
+    first = rng.choice([p_list, p_list, p_deflist, p_admonition, p_footnote_def, p_quote, p_para, p_heading, p_table, p_rawhtml, p_abbr])(rng)
+    out = first
+    for _ in range(rng.randint(1, 3)):
+        out += rng.choice(['\n\n', '\n\n', '\n', '\n\n\n']) + _indented(rng)
+    return out
+
+
 def p_table(rng):
     n = rng.randint(1, 3)
     row = lambda: ' | '.join(rng.choice([inline(rng), '`a|b`', 'x \\| y', '']) for _ in range(n))
@@ -177,7 +208,7 @@ def p_mutated(rng):
     return C.mutated(rng, 120).replace('<![', '<[')
 
 
-PIECES = [(p_para, 5), (p_refdef, 4), (p_footnote_def, 2), (p_footnote_use, 2), (p_abbr, 2), (p_heading, 4), (p_fence, 2), (p_rawhtml, 3), (p_table, 2),
+PIECES = [(p_para, 5), (p_refdef, 4), (p_footnote_def, 2), (p_footnote_use, 2), (p_abbr, 2), (p_heading, 4), (p_fence, 2), (p_rawhtml, 3), (p_mdhtml_container, 2), (p_then_indent, 2), (p_table, 2),
           (p_list, 2), (p_admonition, 1), (p_deflist, 1), (p_quote, 1), (p_code, 1), (p_toc, 1), (p_escapes, 1), (p_soup, 2), (p_lines, 1), (p_mutated, 1)]
 _PIECE_POOL = [f for f, w in PIECES for _ in range(w)]
 
